@@ -158,15 +158,24 @@ SigKept(a, b) ==
 Collapsed(toks, ws) ==
   \A t \in ToSet(Kind(toks, "T")) : \A i \in 1..(Len(t.b) - 1) : ~(t.b[i] \in ws /\ t.b[i+1] \in ws)
 (* cmd/minify/README.md, --html-keep-whitespace: "Preserve whitespace characters but still collapse multiple
-   into one" - wider than "between inline tags".  Second signature: EVERY tag is an item.  When no tag was
-   dropped (same items, same tag names - otherwise the optional-tag minifications are at work and nothing is
-   claimed here), a blank between text and a tag - block tags included - is still there.  Blanks between two
+   into one" - wider than "between inline tags".  Second signature: EVERY tag is an item.  When the items
+   and tag names are the same on both sides (tags with optional start/end tags aside, see below), a blank between text and a tag - block tags included - is still there.  Blanks between two
    tags are claimed for inline tags only (above): between e.g. <select> and <option>, <ul> and <li> they are
    inter-element white space of content models without text. *)
+(* Tags that the documented minifications may drop ("strip unrequired tags (html, head, body, ...)", "strip
+   unrequired end tags (tr, td, li, ... and often p)": the elements with optional tags of HTML 13.1.2.4) are
+   not items of this signature - a gap that contains one is of kind 2 (nothing claimed) - so that the rest of
+   a document is still judged when some optional tag was dropped. *)
+OptionalEnd == {"li", "dt", "dd", "p", "rt", "rp", "rb", "rtc", "optgroup", "option", "colgroup", "caption",
+                "thead", "tbody", "tfoot", "tr", "td", "th", "html", "head", "body"}
+OptionalStart == {"html", "head", "body", "colgroup", "tbody"}
+Droppable(t) == (t.k = "E" /\ t.n \in OptionalEnd) \/ (t.k = "S" /\ t.n \in OptionalStart)
 HtmlSigAll(toks) ==
   FoldLeft(LAMBDA acc, t :
      IF t.k = "T" THEN SigText(acc, t.b, HtmlWs)
-     ELSE IF IsTag(t) THEN [Push(acc, 0) EXCEPT !.names = Append(@, <<t.k, t.n>>)]
+     ELSE IF IsTag(t) THEN
+            IF Droppable(t) THEN [acc EXCEPT !.pend = 2]
+            ELSE [Push(acc, 0) EXCEPT !.names = Append(@, <<t.k, t.n>>)]
      ELSE acc, SigInit, toks)
 TextGapsKept(a, b) ==
   (a.items = b.items /\ a.names = b.names) =>
@@ -325,4 +334,19 @@ JsKeepVarNamesOK(idi, ido, dci, dco) ==
 JsPrecisionOK(ni, p, no) ==
   /\ Len(no) >= Len(ni)
   /\ \A i \in 1..Len(ni) : IsNumber(ni[i]) => \E j \in 1..Len(no) : PrecisionOK(ni[i], p, no[j])
+(* "... and nothing else" for Precision in JS: compared with the output of the same program under the same
+   options with Precision = 0, the output has the same tokens (strings, templates, names, property names,
+   BigInt and regular expression literals, punctuators - sk and sk0, with "#" in place of a numeric literal)
+   and a numeric literal differs only if it is a trimmed numeric LITERAL OF THE INPUT: its untrimmed value
+   occurs as a numeric literal in the input (a number that the minifier made out of something else, e.g. the
+   string key in o["12345"], is none and stays as it is).  An input literal that is not decimal (hex, octal,
+   binary) may reappear as any decimal number. *)
+JsPrecisionOnlyOK(ni, p, nos, no0, sk, sk0) ==
+  /\ sk = sk0
+  /\ Len(nos) = Len(no0)
+  /\ \A i \in 1..Len(no0) :
+        \/ nos[i] = no0[i]
+        \/ /\ IsNumber(no0[i])
+           /\ \E j \in 1..Len(ni) : ~IsNumber(ni[j]) \/ ValueEq(ni[j], no0[i])
+           /\ PrecisionOK(no0[i], p, nos[i])
 =============================================================================
